@@ -433,6 +433,10 @@ func TestC06Arity(t *testing.T) {
 					"select key, " + call + " as f where key != '' group by key",
 					"select key where str(" + call + ") != 'q'",
 					"select " + call + " as f, count(1) where key != '' group by f order by f limit 3",
+					// the call as the NAME of a call (the parser asks such a name
+					// for its value before anything is checked)
+					"select key, " + call + "(1) where key != ''",
+					"remove " + call + "(key)",
 				} {
 					idx++
 					if !lib.Mine(idx) {
